@@ -94,8 +94,18 @@ func RandomGen(rng *emit.Rand, cfg Config, w Weights) Gen {
 			}
 			return op, true
 		default:
-			if rng.Bool() {
+			switch rng.Intn(5) {
+			case 0, 1:
 				return Op{Kind: Restart}, true
+			case 2:
+				op := Op{Kind: StopSync}
+				if head != 0 && head < U {
+					op.Heights = []uint64{head + 1}
+					if head+2 <= U && rng.Bool() {
+						op.Heights = append(op.Heights, head+2)
+					}
+				}
+				return op, true
 			}
 			return Op{Kind: Reopen}, true
 		}
